@@ -574,11 +574,14 @@ BuiltinMixin.SPEC_FUNCS.update({"lists_unchanged_except": sf_lists_unchanged_exc
 # Stop(self, k, r): after k cycles with rates r[0..k): the cycle count reached max_cycles, or the last rate is <=
 # fitness_error, or the last `patience` changes of the rate (differences of consecutive rates; there are k-1 of them)
 # are all decreases smaller than min_delta.
+# A criterion of the EarlyStopping model left at None means the model's default (patience 1, min_delta 1e-4).
+_PAT = "(__cfg.early_stopping.patience if __cfg.early_stopping.patience is not None else 1)"
+_MD = "(__cfg.early_stopping.min_delta if __cfg.early_stopping.min_delta is not None else 0.0001)"
 STOP_DEF = ("(__k >= __cfg.max_cycles"
             " or (__cfg.fitness_error is not None and __r[__k - 1] <= __cfg.fitness_error)"
-            " or (__cfg.early_stopping is not None and __k - 1 >= __cfg.early_stopping.patience and"
-            " all(__r[j] - __r[j - 1] < 0 and abs(__r[j] - __r[j - 1]) < __cfg.early_stopping.min_delta"
-            " for j in range(__k - __cfg.early_stopping.patience, __k))))")
+            " or (__cfg.early_stopping is not None and __k - 1 >= " + _PAT + " and"
+            " all(__r[j] - __r[j - 1] < 0 and abs(__r[j] - __r[j - 1]) < " + _MD +
+            " for j in range(__k - " + _PAT + ", __k))))")
 
 
 def _stop_args(eng, st, cfg: V):
@@ -588,7 +591,9 @@ def _stop_args(eng, st, cfg: V):
     esn = es.none if es.none is not None else z3.BoolVal(False)
     pat = st._read_field_at(es.z, "patience", st.field_type("patience"))
     md = st._read_field_at(es.z, "min_delta", st.field_type("min_delta"))
-    return [mc, fe.none if fe.none is not None else z3.BoolVal(False), fe.z, esn, pat.z, md.z]
+    patz = z3.If(pat.none, z3.IntVal(1), pat.z) if pat.none is not None else pat.z
+    mdz = z3.If(md.none, z3.RealVal("0.0001"), md.z) if md.none is not None else md.z
+    return [mc, fe.none if fe.none is not None else z3.BoolVal(False), fe.z, esn, patz, mdz]
 
 
 def sf_Stop(eng, st, args, kw, node):
